@@ -452,6 +452,51 @@ theorem lstsq_model_recovers_complex [DecidableEq ℂ] (b : Basis ℂ) (hb : WF 
     x = c :=
   lstsq_certified_recovers_complex b hb hind c x hc (lstsq_sound _ b x _ (linComb_length b hb c) h)
 
+/-- **The model's `coefficients_for` always answers for linearly independent modes** (it never
+reports "dependent modes", the driver's `err rank`, for them) — real scalars, every right-hand
+side.  A failed pivot search would exhibit `z ≠ 0` with `Aᴴ A z = 0`, hence `A z = 0`. -/
+theorem lstsq_complete {R : Type} [Field R] [LinearOrder R] [IsStrictOrderedRing R]
+    (b : Basis R) (hb : WF b)
+    (hind : ∀ x y : List R, x.length = b.nmodes → y.length = b.nmodes → linComb b x = linComb b y → x = y)
+    (y : List R) (hy : y.length = b.npix) : ∃ x, lstsq id b y = some x :=
+  lstsq_complete_gen (RingHom.id R) (AddMonoidHom.id R)
+    (fun w => by simp only [RingHom.id_apply, AddMonoidHom.id_apply]; exact mul_self_nonneg w)
+    (fun w h => by
+      simp only [RingHom.id_apply, AddMonoidHom.id_apply] at h
+      exact mul_self_eq_zero.mp h)
+    b hb hind y hy
+
+theorem lstsq_complete_complex [DecidableEq ℂ] (b : Basis ℂ) (hb : WF b)
+    (hind : ∀ x y : List ℂ, x.length = b.nmodes → y.length = b.nmodes → linComb b x = linComb b y → x = y)
+    (y : List ℂ) (hy : y.length = b.npix) : ∃ x, lstsq (starRingEnd ℂ) b y = some x :=
+  lstsq_complete_gen (starRingEnd ℂ) Complex.reAddGroupHom
+    (fun w => by
+      simp only [Complex.coe_reAddGroupHom, Complex.mul_re, Complex.conj_re, Complex.conj_im]
+      nlinarith [mul_self_nonneg w.re, mul_self_nonneg w.im])
+    (fun w h => by
+      simp only [Complex.coe_reAddGroupHom, Complex.mul_re, Complex.conj_re, Complex.conj_im] at h
+      have h1 : w.re * w.re = 0 := by nlinarith [mul_self_nonneg w.re, mul_self_nonneg w.im]
+      have h2 : w.im * w.im = 0 := by nlinarith [mul_self_nonneg w.re, mul_self_nonneg w.im]
+      exact Complex.ext (mul_self_eq_zero.mp h1) (mul_self_eq_zero.mp h2))
+    b hb hind y hy
+
+/-- **The least-squares clause of the property, for the executed model, without any
+hypothesis about the answer**: for linearly independent modes, `coefficients_for(A·c)` of the
+model *is* `c` — in every storage form (dense or sparse `b`), real scalars. -/
+theorem lstsq_total {R : Type} [Field R] [LinearOrder R] [IsStrictOrderedRing R]
+    (b : Basis R) (hb : WF b)
+    (hind : ∀ x y : List R, x.length = b.nmodes → y.length = b.nmodes → linComb b x = linComb b y → x = y)
+    (c : List R) (hc : c.length = b.nmodes) : lstsq id b (linComb b c) = some c := by
+  obtain ⟨x, hx⟩ := lstsq_complete b hb hind (linComb b c) (linComb_length b hb c)
+  rw [hx, lstsq_model_recovers b hb hind c x hc hx]
+
+/-- the same over ℂ -/
+theorem lstsq_total_complex [DecidableEq ℂ] (b : Basis ℂ) (hb : WF b)
+    (hind : ∀ x y : List ℂ, x.length = b.nmodes → y.length = b.nmodes → linComb b x = linComb b y → x = y)
+    (c : List ℂ) (hc : c.length = b.nmodes) : lstsq (starRingEnd ℂ) b (linComb b c) = some c := by
+  obtain ⟨x, hx⟩ := lstsq_complete_complex b hb hind (linComb b c) (linComb_length b hb c)
+  rw [hx, lstsq_model_recovers_complex b hb hind c x hc hx]
+
 /-- **`coefficients_for` does not depend on the storage form**: bases that denote the same
 matrix give the same answer (the same coefficients, or the same "dependent modes" failure) of the
 executable least-squares model, for every right-hand side and every scalar type. -/
